@@ -40,7 +40,11 @@ func VerifStubNewExpander(template string, createVariableResolver VariableResolv
 			if err != nil {
 				return Empty, err
 			}
-			providers = append(providers, createVariableExpressionSolver(vp, sub))
+			solver, serr := createVariableExpressionSolver(vp, sub)
+			if serr != nil {
+				return Empty, serr
+			}
+			providers = append(providers, solver)
 			i = j + 1
 			continue
 		}
